@@ -588,8 +588,32 @@ func hookRunJob(ctx context.Context, cfg *compaction.SubprocessJobConfig, logger
 	return &back, nil
 }
 
+// hookCreateBackend lets the job process see the same kind of backend as its
+// parent when the object-store facade is on; otherwise the real
+// createStorageBackendFromConfig runs.
+func hookCreateBackend(cfg *compaction.SubprocessJobConfig, logger zerolog.Logger) (storage.Backend, error) {
+	p := curPod
+	if p == nil || !p.knobs.ObjStore {
+		compaction.SimHook_CreateStorageBackend = nil
+		defer func() { compaction.SimHook_CreateStorageBackend = hookCreateBackend }()
+		return compaction.CreateStorageBackendForVerif(cfg, logger)
+	}
+	var lc struct {
+		BasePath string `json:"base_path"`
+	}
+	if err := json.Unmarshal([]byte(cfg.StorageConfig), &lc); err != nil {
+		return nil, err
+	}
+	local, err := storage.NewLocalBackend(lc.BasePath, logger)
+	if err != nil {
+		return nil, err
+	}
+	return &objStore{Backend: local}, nil
+}
+
 func installHooks() {
 	compaction.SimHook_RunJobInSubprocess = hookRunJob
+	compaction.SimHook_CreateStorageBackend = hookCreateBackend
 }
 
 // simTimeOf formats an instant the way ingest names files.
